@@ -37,7 +37,7 @@ PLAN = dict(
           "fault-free lines come from the same typed dictionaries as in C07 ('../../cat/pkg', 'x-1.0.tgz', URLs, "
           "BOM-prefixed text ...). Only the error kind (and which variable for Incomplete) is "
           "compared. Non-trivial = an accepted text with a repeated variable or '=' inside a value, any rejected "
-          "text, or a proper non-empty subset; distinct = distinct text by 64-bit fingerprint. Later additions: entries started from new(), default() and a clone; the text of a missing-variable error must name the missing variable and no other; values related to each other (same text under two variables, a pattern on the entry's own PKGBASE, a value beginning with its own VAR=). Round 7: clusters of '=', CR, blank and tab at the start, middle or end of a value (a CR directly before the line feed is excluded). Round 8: lines of a no-break space, a byte-order mark or a vertical tab as lines without '='."),
+          "text, or a proper non-empty subset; distinct = distinct text by 64-bit fingerprint. Later additions: entries started from new(), default() and a clone; the text of a missing-variable error must name the missing variable and no other; values related to each other (same text under two variables, a pattern on the entry's own PKGBASE, a value beginning with its own VAR=). Round 7: clusters of '=', CR, blank and tab at the start, middle or end of a value (a CR directly before the line feed is excluded). Round 8: lines of a no-break space, a byte-order mark or a vertical tab as lines without '='. Round 10: at the end of an entry a single-valued variable is set, other single-valued variables are set to the empty string, and the first one is set again to something shorter."),
     exhaustive={"quick": "all 2^11 subsets of the required variables through the setters (2 value/order rounds); each of the eleven required variables removed from each of 4000 base texts; every near-miss name (23 names x (22 invisible characters x 3-5 placements + look-alikes)) x 3 line positions x insert/replace x 2 rounds; long lines: 14 limits x 10 width/alignment pairs x 7 kinds x 3 positions x 4 rounds",
                 "thorough": "all 2^11 subsets of the required variables through the setters (16 value/order rounds); each of the eleven required variables removed from each of 40000 base texts; the near-miss name enumeration x 12 rounds; the long-line enumeration x 24 rounds"},
     assumptions=[
